@@ -9,6 +9,7 @@ mod ops_api;
 mod ops_case;
 mod ops_engine;
 mod ops_features;
+mod ops_syntax;
 #[cfg(feature = "pattern")]
 mod ops_pattern;
 mod report;
@@ -70,6 +71,14 @@ fn main() {
         "c09" => ops_api::c09(&mut rep, n, seed),
         "c11" => ops_api::c11(&mut rep, &aux, thorough, seed),
         "c05scope" => ops_engine::c05_scope(&mut rep, seed, thorough),
+        "syntax" => {
+            let focus = arg(&args, "--focus").unwrap_or("C08".into());
+            ops_syntax::syntax(&mut rep, &focus, n, seed, thorough)
+        }
+        "big" => {
+            ops_syntax::big(&args[2], args[3].parse().unwrap());
+            return;
+        }
         "compiler" => ops_engine::compiler_tie(&mut rep, n, seed, thorough),
         "c12classes" => ops_engine::c12_classes(&mut rep, n, seed, thorough),
         "c12sets" => ops_api::c12_sets(&mut rep, n, seed),
